@@ -45,6 +45,12 @@ STRENGTHENED = {
     "C04-9": "missed at first by C04 (caught by C05); the range server can now end a piece 0..4 bytes into the blank line of every part header",
     "C12-9": "missed at first; the tools are now also run under EINTR and ENOSPC faults on every write",
     "C17-4": "missed at first; sessions (broken transfer, optional re-scan, reset, second response of any kind) were added to C17 with theorems C17_session, C17_rescan_sound",
+    "C07-7": "missed at first; C07 gained 'validate the lead now' and 'the file changes under the context' steps (pins already used once must still hold for the next read)",
+    "C08-9": "missed at first; C08 gained write-mode sources (tables built by zck_generate_hashdb, op H), crafted cross-compression targets and one-sided uncompressed-source flags",
+    "C03-8": "missed at first; pairings in both directions across files that differ in compression type and uncompressed-source flag were added",
+    "C03-9": "missed at first; header opens with a pinned header length off by one were added (sanitized build; the context is freed after the refusal)",
+    "C18-7": "missed at first (digests unchanged, the caller's buffer is damaged); C18 gained a writer+reader run through the API in both builds for every (overall, chunk) checksum type pair",
+    "C20-9": "the lost bound is at the caller (header.c read_sig), not in the codec: caught by C03 and C13 (sanitized header parsing), not by C20",
     "C01-3": "caught as HANG; the per-case watchdog was shortened so that the check stays fast",
 }
 
